@@ -38,6 +38,7 @@ def discover():
         if not ok:
             continue
         vds = sorted(glob.glob(os.path.join(base, "ValueDomain", "*.json")))
+        sqls = sorted(glob.glob(os.path.join(base, "sql", "*.sql")))
         try:
             size = sum(os.path.getsize(p) for p in data.values() if p)
         except OSError:
@@ -48,6 +49,7 @@ def discover():
             "structs": structs,
             "data": data,
             "vds": vds,
+            "sqls": sqls,
             "bytes": size,
         })
     _cache = out
@@ -60,6 +62,16 @@ def as_op(entry, api="run", kwargs=None, env=None, output_folder=False):
     kw = dict(kwargs or {})
     if entry["vds"]:
         kw.setdefault("value_domains", {"__paths__": entry["vds"]})
+    if entry.get("sqls") and "eval" in script:
+        routines = []
+        for p in entry["sqls"]:
+            try:
+                with open(p, encoding="utf-8") as f:
+                    routines.append({"name": os.path.basename(p)[:-4], "query": f.read()})
+            except OSError:
+                pass
+        if routines:
+            kw.setdefault("external_routines", routines)
     op = {
         "api": api,
         "corpus_id": entry["id"],
